@@ -23,7 +23,7 @@ var ioErrorSources = map[string]bool{
 	"(*encoding/xml.Encoder).Flush": true, "(*encoding/xml.Encoder).Close": true,
 	"(*github.com/asticode/go-astits.Demuxer).NextData": true, "(*github.com/asticode/go-astits.Demuxer).NextPacket": true,
 	"(*github.com/asticode/go-astits.Demuxer).Rewind": true,
-	"os.Open": true, "os.Create": true, "os.OpenFile": true,
+	"os.Open": true, "os.Create": true, "os.OpenFile": true, "os.Rename": true, "os.CreateTemp": true, "os.WriteFile": true, "os.ReadFile": true,
 	"(*bufio.Scanner).Err": true, "(*bufio.Writer).Flush": true, "(*bufio.Writer).Write": true, "(*bufio.Writer).WriteString": true,
 	"(*bufio.Reader).Read": true, "(*bufio.Reader).ReadString": true, "(*bufio.Reader).ReadBytes": true, "(*bufio.Reader).ReadByte": true,
 	"(*bufio.Reader).ReadRune": true, "(*bufio.Reader).ReadLine": true, "(*bufio.Reader).Peek": true,
@@ -560,6 +560,18 @@ func blockPos(p *Prog, b *ssa.BasicBlock) string {
 func (ef *errFlow) checkFatal(l *Ledger, rule string, fn *ssa.Function, call *ssa.Call, src, key, pos string) {
 	fname := FnName(fn)
 	if fnPkg(fn) != ef.p.CLISSA {
+		// a (deferred) closure of a function that returns an error: the error has to be stored into the captured
+		// result of that function where it is not nil
+		if fn.Parent() != nil && errResultIndex(fn.Parent().Signature) >= 0 {
+			if e := errValue(call); e != nil {
+				if where := storedIntoCapturedError(fn, e); where != "" {
+					l.Prove(rule, fname, key, pos, "the error of "+src+" is stored into the error result the closure captures")
+				} else {
+					l.Fail(rule, fname, key, pos, fmt.Sprintf("%s (a closure of %s) calls %s and does not store its error into the error result of %s where it is not nil (a := inside the closure declares another variable): the failure is not reported", fname, FnName(fn.Parent()), src, FnName(fn.Parent())))
+				}
+				return
+			}
+		}
 		l.Fail(rule, fname, key, pos, fmt.Sprintf("%s calls %s but cannot return an error", fname, src))
 		return
 	}
@@ -670,4 +682,53 @@ func forwardsReadFullEOF(f *ssa.Function, depth int) bool {
 		}
 	}
 	return false
+}
+
+// storedIntoCapturedError: on the edge where e is not nil, the closure stores an error (e itself, or one built from it)
+// into a captured variable of type error.  Returns the position of the store ("" when there is none).
+func storedIntoCapturedError(fn *ssa.Function, e ssa.Value) string {
+	// e may first be copied into a local of the closure
+	same := map[ssa.Value]bool{e: true}
+	for _, r := range *e.Referrers() {
+		if st, ok := r.(*ssa.Store); ok && st.Val == e {
+			if al, ok := st.Addr.(*ssa.Alloc); ok {
+				for _, r2 := range *al.Referrers() {
+					if u, ok := r2.(*ssa.UnOp); ok {
+						same[u] = true
+					}
+				}
+			}
+		}
+	}
+	for _, b := range fn.Blocks {
+		for _, ins := range b.Instrs {
+			st, ok := ins.(*ssa.Store)
+			if !ok {
+				continue
+			}
+			fv, ok := st.Addr.(*ssa.FreeVar)
+			if !ok || !isErrorType(fv.Type().Underlying().(*types.Pointer).Elem()) {
+				continue
+			}
+			for _, dc := range dominatingConds(b) {
+				bo, ok := dc.cond.(*ssa.BinOp)
+				if !ok {
+					continue
+				}
+				var tested ssa.Value
+				if isNilConst(bo.Y) {
+					tested = bo.X
+				} else if isNilConst(bo.X) {
+					tested = bo.Y
+				}
+				if tested == nil || !same[tested] {
+					continue
+				}
+				if (bo.Op == token.NEQ) == dc.taken {
+					return "stored"
+				}
+			}
+		}
+	}
+	return ""
 }
